@@ -29,8 +29,11 @@ MANIFEST = {
     "technique": "Lean 4 proof (invariant over the token stream, all block capacities) + metamorphic differential runs of the real tool",
 }
 
-REQUIRED = ["KV.C07.count_block_indep", "KV.C07.lmplz_indep",
-            "KV.C07.collapse_partition_indep", "KV.C07.prune_partition_indep"]
+REQUIRED = ["KV.C07.count_block_indep", "KV.C07.lmplz_indep", "KV.C07.lmplz_indep_final",
+            "KV.C07.collapse_partition_indep", "KV.C07.prune_partition_indep",
+            "KV.C07.lmplz_indep_vocab", "KV.C07.sort_hyp_discharged", "KV.C07.sort_hyp_discharged_code",
+            "KV.C07.count_blocks_nodup", "KV.C07.chain_stream_deterministic",
+            "KV.C07.lmplz_eq_spec_discharged", "KV.C07.lmplz_indep_discharged"]
 
 OKISH = ("ok", "config")
 
@@ -210,7 +213,7 @@ def one_corpus(ctx, wrappers, case0, wd, n_cfg, n_rep, label, timeout=120):
             if L.compare_discounts(tstats, ref["discs"]) or fb_ref != tfb:
                 ctx.hist("c05", "discounts-deviate")
             else:
-                mp, worst = L.compare_model(tg, case["order"], ref["grams"], "definition")
+                mp, worst = L.compare_model(tg, case["order"], ref["grams"], "definition", errs=ref.get("errs"))
                 ctx.notes["worst_log10_dev"] = max(ctx.notes.get("worst_log10_dev", 0.0), worst)
                 if mp:
                     ctx.hist("c05", "values-deviate")
@@ -278,6 +281,61 @@ def replay(ctx, path):
         shutil.rmtree(wd, ignore_errors=True)
 
 
+VOCAB_ESTIMATES = [10, 37, 150, 1000, 2500, None]
+
+
+def vocab_growth(ctx, tools, wd, n_corpora):
+    """--vocab_estimate axis with THOUSANDS of word types: the vocabulary table (GrowableVocab over AutoProbing) doubles
+    several times with long occupied runs that wrap around the end of the table.  All estimates must give the same
+    ARPA bytes as the default (no growth).  Order 1 or 2 keeps a run at a few tens of ms."""
+    found = False
+    for ci in range(n_corpora):
+        rng = ctx.rng
+        V = rng.choice([2200, 3000, 3000, 4500, 7000, 12000])
+        style = rng.choice(["hex", "w", "mixed"])
+        salt = rng.getrandbits(32)
+        def word(i):
+            if style == "w":
+                return b"w%d_%x" % (i, salt & 0xff)
+            if style == "hex":
+                return b"w%08x" % ((i * 2654435761 + salt) & 0xffffffff)
+            return (b"x" * (1 + i % 7)) + b"%d" % (i ^ salt)
+        S = V // 3
+        sents = [[word(rng.randrange(V)) for _ in range(rng.randint(2, 6))] for _ in range(S)]
+        sents += [[word(i) for i in range(j, min(j + 8, V))] for j in range(0, V, 8) if rng.random() < 0.9]
+        corpus = b"".join(b" ".join(x) + b"\n" for x in sents)
+        types = len({w for x in sents for w in x})
+        case = dict(corpus=corpus, order=rng.choice([1, 1, 2]), prune=None, limit=None, interp=True, fallback="default",
+                    renumber=rng.random() < 0.3, skip=False, label="vocab V%d" % types)
+        base = None
+        ctx.hist("vocab.types", types // 1000 * 1000)
+        for ve in [None] + [e for e in VOCAB_ESTIMATES if e is not None]:
+            extra = [] if ve is None else ["--vocab_estimate", str(ve)]
+            t = L.run_lmplz(tools["lmplz"], case, wd, "v", mem="64M", extra=extra, timeout=300)
+            ctx.count(("vocab", corpus[:64], len(corpus), ve, case["order"]), nontrivial=True)
+            ctx.hist("vocab.class", t["cls"])
+            if t["cls"] != "ok":
+                ctx.violation("lmplz fails (%s) with --vocab_estimate %s on a corpus of %d word types" % (t["cls"], ve, types),
+                              {"stream": "vocab-growth", "corpus": corpus.decode("latin-1"), "order": case["order"],
+                               "vocab_estimate": ve, "command": M.cmdline(t), "stderr": t["stderr"][-1500:]})
+                found = True
+                break
+            if base is None:
+                base = t
+                continue
+            if t["arpa"] != base["arpa"]:
+                d = M.first_diff({"arpa": base["arpa"]}, {"arpa": t["arpa"]})
+                hb, gb, _ = L.parse_arpa(base["arpa"])
+                ht, gt, pt = L.parse_arpa(t["arpa"])
+                ctx.violation("the ARPA depends on --vocab_estimate (%s vs default) on a corpus of %d word types: header %r vs %r%s" % (
+                                  ve, types, hb, ht, ("; " + pt[0]) if pt else ""),
+                              {"stream": "vocab-growth", "corpus": corpus.decode("latin-1"), "order": case["order"],
+                               "vocab_estimate": ve, "first_difference": d, "commands": [M.cmdline(base), M.cmdline(t)]})
+                found = True
+                break
+    return found
+
+
 def run(ctx):
     problems, consts = flow.proof_phase(ctx, "C07", required=REQUIRED, drivers=[])
     wd = os.path.join(SCRATCH, "c07_%d" % os.getpid())
@@ -312,6 +370,9 @@ def run(ctx):
                 # n_cfg configurations + n_rep repetitions for each of the two output kinds (see variants)
                 if one_corpus(ctx, wrappers, case, cwd, n_cfg, n_rep, kind, timeout=(900 if kind == "big" else 120)):
                     found = True
+        vwd = os.path.join(wd, "vocab")
+        if vocab_growth(ctx, tools, vwd, 45 if ctx.tier == "quick" else 400):
+            found = True
     finally:
         shutil.rmtree(wd, ignore_errors=True)
     ctx.cov["rule"] = ("lmplz-config stream: corpora of the C05 generator (Zipfian vocabularies 3..400 types, repeated sentences, "
@@ -323,7 +384,9 @@ def run(ctx):
                        "-T (directory, file prefix, path with a space, /dev/shm), taskset to 1 or 2 CPUs / nice 19, plain "
                        "repetitions.  One evaluation = one run of the tool; non-trivial = accepted run on a corpus of >= 6 tokens; "
                        "distinct by (corpus, modelling options, output kind, configuration, position).  All accepted runs of one "
-                       "(corpus, modelling options, kind) are compared byte for byte with the first accepted one.")
+                       "(corpus, modelling options, kind) are compared byte for byte with the first accepted one.  vocab-growth stream: corpora "
+                       "of 2000..12000 word types (three spellings) x --vocab_estimate 10/37/150/1000/2500/default at order 1-2: the "
+                       "vocabulary hash table doubles several times with long wrapped runs; ARPA bytes must equal the default run.")
     ctx.assumptions += ["thread interleavings are those the OS produces under the affinity / priority / repetition variants "
                         "(not enumerated; the model-level statement for all schedules is hypothesis h_chain = C17)",
                         "--renumber / --intermediate runs are generated without unigram pruning and without --limit_vocab_file "
